@@ -194,3 +194,26 @@ fn cc_loss_latch_hysteresis() {
     kani::cover!(!p.loss_degraded && q.loss_degraded);
     kani::cover!(p.loss_degraded && !q.loss_degraded);
 }
+
+// C16 (glue): LinkCcController::tick_all feeds each link's controller from the link's own signals.  A link that has never produced an
+// RTT sample (smoothed RTT 0) must leave its first tick at the floor, in Bootstrap, whatever else the link state says -- in particular
+// the 200 ms placeholder in `rtt_min_ms` must not be fed as a sample.  One link, fresh controller; the std HashMap runs symbolically.
+#[kani::proof]
+#[kani::unwind(4)]
+#[kani::stub(srtla_core::selection::link_cc::LinkCongestionState::update_loss_ewma, loss_ewma_frame_only)]
+fn cc_tick_all_sits_at_the_floor_until_an_rtt_sample_exists() {
+    use srtla_core::selection::link_cc::LinkCcController;
+    let conn = crate::util::any_conn();
+    kani::assume(conn.get_smooth_rtt_ms() == 0.0);
+    let now: u64 = kani::any();
+    kani::assume(now > 0 && now < crate::util::CLOCK_MAX);
+    let mut ctl = LinkCcController::new();
+    let id = conn.conn_id;
+    let conns = [conn];
+    let snaps = ctl.tick_all(&conns, now);
+    let s = snaps.get(&id).unwrap();
+    assert!(s.state == CcState::Bootstrap);
+    assert!(s.target_bps == 100_000);
+    assert!(s.rtt_ewma_ms == 0.0);
+    kani::cover!(conns[0].get_rtt_min_ms() == 200.0);
+}
